@@ -1,11 +1,11 @@
-"""C09 candidate defect (pending disposition): FilterConv on a 2-D domain (nelz = 0) with a 3-D kernel (kz >= 3).
+"""C09 regression witness (repaired in /repo 6759d43): FilterConv on a 2-D domain (nelz = 0) with a 3-D kernel (kz >= 3).
 
-_process_padding uses the raw domain.nelz = 0 in `domain_sizes` / `padded_sizes` although the element arrays have
+_process_padding used the raw domain.nelz = 0 in `domain_sizes` / `padded_sizes` although the element arrays have
 one layer in z. The override box of a constant zmax face therefore covers the z-layer of the DOMAIN itself
 (index pad + 0) instead of the padded layer (index pad + 1), and the boxes of constant x/y faces miss the last z layer:
 the domain values are replaced by the constant and the padded layer reads x[0].
 
-Exits 1 while the defect is present.
+Exits 1 if the defect is back.
 """
 import sys
 import numpy as np
